@@ -108,6 +108,17 @@ check("C13",
       "are logged and TLC checks the relation for H_tilde, U and U-dagger at every multi-order. The parameter order of a "
       "run is read from the returned series' dimension_names.",
       REL, "TLA+ two-run relations evaluated by TLC on logged outputs of paired real runs", "DESIGN.md §4 C13")
+check("C14",
+      "Relations.tla 'same' / 'projection': one abstract Hamiltonian is run through pairs of presentations -- order-tuple "
+      "dict vs list / symbolic monomial keys (names that do not sort in the given order) / sympy matrix with symbols / "
+      "BlockSeries; dense vs sparse vs symbolic values; subspace_indices vs the corresponding eigenvector matrices; the "
+      "Hamiltonian rotated into a dyadic unitary (Hermitian) or unimodular biorthogonal (non-Hermitian) eigenbasis vs the "
+      "eigenbasis itself; a sympy matrix with analytic dependence (exp, 1/(1-x), sin, log(1+x)) vs its exact Taylor "
+      "coefficients -- and TLC requires identical H_tilde, U, U-dagger at every multi-order; operator_to_BlockSeries is "
+      "called directly and TLC requires its blocks to equal L_i^dagger A R_j computed in GF(p^2).",
+      REL + " Nested block lists as a container are not exercised. A crash of one presentation (counted in the evidence) "
+      "is not judged here.",
+      "TLA+ two-run relations evaluated by TLC on logged outputs of paired real runs", "DESIGN.md §4 C14")
 check("C15",
       "Relations.tla: block relabelling and basis-state permutation and rotation inside a degenerate level (all "
       "B = T A T^-1 with T computed by the harness from the construction), complex conjugation, shift of H_0 (only "
